@@ -63,8 +63,9 @@ Proof.
   destruct (schema_kinds e) as [ks|] eqn:K; [|discriminate]. exists ks. split; [reflexivity|].
   intros k owner ttl cl vs Wo Wt Wc Wf.
   assert (L : length (s_wfields e) = length vs).
-  { rewrite (compat_all_length _ _ A1). unfold schema_kinds in K. rewrite <- (opt_map_length _ _ _ K).
-    apply wf_fields_length, Wf. }
+  { pose proof (compat_all_length _ _ A1) as L1. unfold schema_kinds in K.
+    pose proof (opt_map_length _ _ _ K) as L2. rewrite combine_length, map_length in L2.
+    pose proof (wf_fields_length _ _ Wf) as L3. lia. }
   assert (W : wf_record ks (typed_record e owner ttl cl vs)).
   { unfold wf_record, typed_record. cbn [r_owner r_ttl r_class r_type r_fields].
     rewrite with_comments_fst by exact L.
@@ -84,3 +85,35 @@ Proof. vm_compute. reflexivity. Qed.
 Example ex_typed_ds_schema : option_map (fun e => (s_block e, schema_kinds e)) (find_schema type_schemas 43)
   = Some (true, Some [FUint 65535; FUint 255; FUint 255; FRest]).
 Proof. vm_compute. reflexivity. Qed.
+
+(* nesting: the writer's block depth exceeds 1 for NSEC3 / NSEC3PARAM (the salt is a block
+   inside the record's block), so the reader's parenthesis state must be a counter *)
+Fixpoint max_depth (d m : N) (ops : list op) : N :=
+  match ops with
+  | [] => m
+  | OBegin :: r => max_depth (d + 1) (N.max m (d + 1)) r
+  | OEnd :: r => max_depth (d - 1) m r
+  | _ :: r => max_depth d m r
+  end.
+
+Definition nsec3_example : option record :=
+  option_map (fun e => typed_record e [[97]] 0 1 [VUint 1; VUint 0; VUint 10; VSalt []; VWord [48]; VTypes [1; 46]])
+             (find_schema type_schemas 50).
+
+Lemma nsec3_nests_two_deep :
+  option_map (fun r => max_depth 0 0 (record_ops r)) nsec3_example = Some 2.
+Proof. vm_compute. reflexivity. Qed.
+
+(* its multi-line text (line feeds at depth 1 and 2, two closing parentheses) is read as the
+   eleven tokens *)
+Lemma nsec3_multiline_tokens :
+  option_map (fun r => do t <- show_record KMulti r; do ts <- tokenize t; Ok (length ts)) nsec3_example
+  = Some (Ok 11%nat).
+Proof. vm_compute. reflexivity. Qed.
+
+(* a reader that only remembers WHETHER it is inside parentheses ends the group at the inner
+   ')' and rejects the outer one *)
+Lemma paren_depth_must_count :
+  run (Ok (2, [], MSkip false)) [41; 32; 41; 10] = Ok (0, [], MDone) /\
+  run (Ok (1, [], MSkip false)) [41; 32; 41; 10] = Err E_parens.
+Proof. split; vm_compute; reflexivity. Qed.
